@@ -250,6 +250,47 @@ func (b *Body) nativeCall(v ssa.Value, key string, c *ssa.CallCommon, args []*Va
 		b.recordWrite(blk, reg, mi.X)
 		ft.trusted["sort.Slice (modelled natively: the slice's elements are permuted; the order produced and the less function's effects are not modelled)"] = true
 		return true
+	case "(error).Error":
+		// the text of an error: carries backend text iff the error came out of a store / Lightning call
+		if !c.IsInvoke() {
+			return false
+		}
+		r := b.declVal(v)
+		if ft.e.backendError(c.Value, 0) {
+			ft.fact(A("str.leak", r.T))
+		} else {
+			ft.fact(Not(A("str.leak", r.T)))
+		}
+		return true
+	case "fmt.Sprintf":
+		// the formatted text itself is not modelled; what is tracked (C20) is whether an
+		// error value that came straight out of a store / Lightning call went into it
+		r := b.declVal(v)
+		leak := tFalse
+		for _, a := range c.Args[1:] {
+			if sl, ok := a.(*ssa.Slice); ok {
+				// variadic arguments: the elements stored into the backing array
+				if al, ok := sl.X.(*ssa.Alloc); ok {
+					for _, ref := range *al.Referrers() {
+						ia, ok := ref.(*ssa.IndexAddr)
+						if !ok {
+							continue
+						}
+						for _, r2 := range *ia.Referrers() {
+							if st2, ok := r2.(*ssa.Store); ok && ft.e.backendError(st2.Val, 0) {
+								leak = tTrue
+							}
+						}
+					}
+				}
+			}
+		}
+		ft.fact(Eq(A("str.leak", r.T), leak))
+		ft.usedSpec["str.leak"] = true
+		if isTrue(leak) {
+			ft.trusted["fmt.Sprintf (modelled natively: result arbitrary; str.leak(result) records that a store/Lightning error value was formatted into it)"] = true
+		}
+		return true
 	case "errors.As":
 		// errors.As(err, &target): on success target holds a non-nil value of
 		// its type; the target cell is arbitrary otherwise
